@@ -203,7 +203,8 @@ Next == /\ done = FALSE /\ done' = TRUE /\ part' = part
                             /\ Assert(RefineOK(0), "CmpT is not a refinement of Cmp")
             [] part = 1 -> Assert(EqualOK(0), "values compare equal outside the documented cases")
             [] part = 2 -> Assert(RankOK(0), "Cmp is not a total preorder")
-            [] part = 3 -> \A i \in 1..N : PrintT(<<"T", ToJson(PtRec(i))>>)
+            [] part = 3 -> /\ \A i \in 1..N : PrintT(<<"T", ToJson(PtRec(i))>>)
+                           /\ PrintT(<<"T", ToJson([k |-> "prefixes", decodable |-> Decodable])>>)
             [] part = 4 -> Assert(TupRankOK(0), "tuple ranks do not represent TupCmp")
             [] part \in 5..6 -> \A ix \in {jx \in Tup2 : jx[1] % 2 = part - 5} : PrintT(<<"T", ToJson(T2Rec(ix))>>)
             [] part \in 7..10 -> \A ix \in {jx \in Tup3 : jx[1] % 4 = part - 7} : PrintT(<<"T", ToJson(T3Rec(ix))>>)
